@@ -98,6 +98,9 @@ func tlvb(code uint16, v []byte) []byte {
 }
 
 func (r *Run) u32() uint32 {
+	if d := sourceInts(); len(d) > 0 && r.Rng.Intn(8) == 0 {
+		return uint32(d[r.Rng.Intn(len(d))])
+	}
 	switch r.Rng.Intn(6) {
 	case 0:
 		return 0
@@ -113,6 +116,11 @@ func (r *Run) u32() uint32 {
 
 // n16 / n8: numeric field values, often at a boundary
 func (r *Run) n16() int {
+	// now and then a number the library's own source mentions (ports, default values, limits, enterprise numbers):
+	// code that treats one particular value differently names that value
+	if d := sourceInts(); len(d) > 0 && r.Rng.Intn(6) == 0 {
+		return int(d[r.Rng.Intn(len(d))] & 0xffff)
+	}
 	if r.Rng.Intn(3) == 0 {
 		return r.Pick(0, 1, 0xff, 0x100, 0x7fff, 0x8000, 0xfffe, 0xffff)
 	}
@@ -1141,7 +1149,49 @@ func oracleC06v4(r *Run, b []byte) {
 	}
 }
 
+// sweepSmallPayloads6: every option code the library knows, with EVERY payload of one and of two octets (all 65536
+// values of each 16-bit field: ports, times, codes, flags - no value is special unless the RFC says so), inside a
+// message: decoding, encoding and decoding again gives the value first decoded, and a third encoding equals the second.
+func sweepSmallPayloads6(r *Run) int {
+	n := 0
+	for _, c := range knownV6Codes {
+		try := func(payload []byte) {
+			n++
+			o, err := dhcpv6.ParseOption(dhcpv6.OptionCode(c), append([]byte{}, payload...))
+			if err != nil {
+				return
+			}
+			e1 := safeToBytes(o)
+			o2, err := dhcpv6.ParseOption(dhcpv6.OptionCode(c), append([]byte{}, e1...))
+			cs := fmt.Sprintf("option %d payload %x", c, payload)
+			if err != nil {
+				r.Fail("v6-reencoded-rejected", cs, "the encoding of an accepted option is rejected: "+err.Error())
+				return
+			}
+			if d1, d2 := dumpLine(dumpOpt(o)), dumpLine(dumpOpt(o2)); d1 != d2 {
+				r.Fail("v6-not-a-fixpoint", cs, "decode, encode, decode gives another value: "+firstDiff(d1, d2))
+				return
+			}
+			if s1, s2 := o.String(), o2.String(); s1 != s2 {
+				r.Fail("v6-not-a-fixpoint", cs, "decode, encode, decode prints differently: "+firstDiff(s1, s2))
+				return
+			}
+			if e2 := safeToBytes(o2); !bytes.Equal(e1, e2) {
+				r.Fail("v6-not-a-fixpoint", cs, fmt.Sprintf("second encoding %x differs from the first %x", e2, e1))
+			}
+		}
+		for v := 0; v < 256; v++ {
+			try([]byte{byte(v)})
+		}
+		for v := 0; v < 65536; v++ {
+			try([]byte{byte(v >> 8), byte(v)})
+		}
+	}
+	return n
+}
+
 func genC06(r *Run) {
+	r.Extra["v6_small_payload_sweep"] = sweepSmallPayloads6(r)
 	// v4: non-canonical accepted areas
 	hdr := make([]byte, 240)
 	copy(hdr, []byte{2, 1, 6, 0, 1, 2, 3, 4})
